@@ -216,6 +216,7 @@ structure FnObj where
   metaName : String                 -- `pytask_meta.name`
   metaId : Option String            -- `pytask_meta.id_`
   metaKwargs : List (String × Val)  -- `pytask_meta.kwargs` as passed to `@task(kwargs=…)`
+  mixedPrio : Bool := false         -- carries `try_first` and `try_last`: `pytask_collect_task` raises
 
 inductive Stmt where
   /-- `def fname(params…=defaults…): log(tag)` (or a lambda / partial), optionally bound to `bind`. -/
@@ -225,6 +226,8 @@ inductive Stmt where
   | wrap (obj : Nat) (name : Option String) (id : Option String) (kwargs : List (String × Val))
   /-- `bind = <not callable>`. -/
   | value (bind : String)
+  /-- `pytask.mark.<m>(obj)` (any markers); `mixed` = the function now carries both `try_first` and `try_last`. -/
+  | mark (obj : Nat) (mixed : Bool)
 
 structure Prog where
   imports : List String      -- stems of helper modules in the root directory, executed first
@@ -282,6 +285,10 @@ def execStmt (file : Path) (gen : Nat) (st : World × Namespace) : Stmt → Worl
       ({ st.1 with heap := ((gen, obj), f') :: st.1.heap, registry := regAppend st.1.registry f.file (gen, obj) }, st.2)
     | none => st
   | .value b => (st.1, st.2 ++ [(b, Obj.value)])
+  | .mark obj mixed =>
+    match st.1.heap.lookup (gen, obj) with
+    | some f => ({ st.1 with heap := ((gen, obj), { f with mixedPrio := mixed }) :: st.1.heap }, st.2)
+    | none => st
 
 def execStmts (file : Path) (gen : Nat) (st : World × Namespace) (stmts : List Stmt) : World × Namespace :=
   stmts.foldl (execStmt file gen) st
@@ -375,21 +382,31 @@ def findSpecIn (fs : FS) (dir : Path) (tail : String) : SpecSrc :=
   else if fs.isDir (dir ++ [tail]) then .namespace
   else .notFound
 
+/-- a function handed over through `build(tasks=[…])`. -/
+structure PTask where
+  file : Path                 -- `get_file(fn)`
+  name : String               -- `__name__` / the name `@task` gave it
+  tag : Nat
+  marked : Bool := false      -- already wrapped by `@task`
+  hasMeta : Bool := false     -- carries `pytask_meta` (wrapped, or any `pytask.mark.*`)
+  mixedPrio : Bool := false   -- `try_first` and `try_last`
+
 structure Env where
   fs : FS
   cfg : Cfg
   progs : List (Path × Prog)
   preloaded : List ModKey        -- names already in `sys.modules` (interpreter, stdlib)
-  /-- `build(tasks=[…])`: plain functions `(defining file, __name__, body tag)` in the order given. -/
-  ptasks : List (Path × String × Nat) := []
+  /-- `build(tasks=[…])`: functions in the order given. -/
+  ptasks : List PTask := []
 
-def ptaskObj (f : Path) (n : String) (tag : Nat) : FnObj :=
-  { file := f, fname := n, params := [], defaults := [], tag := tag, marked := true, metaName := n, metaId := none, metaKwargs := [] }
+def ptaskObj (pt : PTask) : FnObj :=
+  { file := pt.file, fname := pt.name, params := [], defaults := [], tag := pt.tag, marked := true, metaName := pt.name,
+    metaId := none, metaKwargs := [], mixedPrio := pt.mixedPrio }
 
 /-- generation 0 is reserved for the function objects handed over through `build(tasks=…)`. -/
-def ptaskHeap : Nat → List (Path × String × Nat) → List (ObjId × FnObj)
+def ptaskHeap : Nat → List PTask → List (ObjId × FnObj)
   | _, [] => []
-  | i, (f, n, t) :: rest => ((0, i), ptaskObj f n t) :: ptaskHeap (i + 1) rest
+  | i, pt :: rest => ((0, i), ptaskObj pt) :: ptaskHeap (i + 1) rest
 
 def Env.init (env : Env) : World :=
   { heap := ptaskHeap 0 env.ptasks, registry := [],
@@ -432,7 +449,7 @@ def importPath (env : Env) (w : World) (path : Path) : World × Option Module :=
     | none =>
       match findSpecIn env.fs pkg.dropLast (key.getLast?.getD "") with
       | .file p => let r := loadAs env w key p; (r.1, some r.2)
-      | .namespace => ({ w with modules := w.modules ++ [(key, { src := none, ns := [] })] }, none)
+      | .namespace => (w, none)   -- `find_spec` itself raises (`_NamespacePath` looks up the parent package): nothing is cached
       | .notFound =>
         if isPySource path then let r := loadAs env w key path; (r.1, some r.2)
         else importByPath env w path
@@ -622,15 +639,38 @@ def failDupsLoop : List (Path × String) → List Report → List Report
 
 def failDups (rs : List Report) : List Report := failDupsLoop [] rs
 
-/-- `_collect_from_tasks` for plain functions: `task()` wraps the function (registering it), the registration is
-removed again, and the function is collected under `(get_file(fn), fn.__name__)`. -/
-def ptaskReports : Nat → List (Path × String × Nat) → List Report
+/-- the predicate under which `_collect_from_tasks` applies `task()` to a function (read from the source). -/
+def PTask.wraps (pt : PTask) : Bool :=
+  match Generated.Col.ptaskWrapWhen with
+  | .noTaskMark => !pt.marked
+  | .noMeta => !pt.hasMeta
+
+/-- one iteration of `_collect_from_tasks`: a function that carries the `task` mark (before or after the wrapping) is
+collected under `(get_file(fn), name)` — `pytask_collect_task` raises for mixed priorities —, its registration in
+`COLLECTED_TASKS` is removed again; anything without the mark gets name `""`, path `None` and yields no report. -/
+def ptaskReport (i : Nat) (pt : PTask) : Option Report :=
+  if pt.marked || pt.wraps then some (if pt.mixedPrio then Report.fail else Report.succ pt.file pt.name (0, i)) else none
+
+def ptaskReports : Nat → List PTask → List Report
   | _, [] => []
-  | i, (f, n, _) :: rest => Report.succ f n (0, i) :: ptaskReports (i + 1) rest
+  | i, pt :: rest => (ptaskReport i pt).toList ++ ptaskReports (i + 1) rest
+
+def isMixed (w : World) (o : ObjId) : Bool :=
+  match w.heap.lookup o with
+  | some f => f.mixedPrio
+  | none => false
+
+/-- `pytask_collect_task` raises `ValueError` for a function with `try_first` and `try_last`; the protocol turns that
+task — and only it — into a failed report (a pure pass over the reports: it touches no state). -/
+def failMixed (w : World) (rs : List Report) : List Report :=
+  rs.map (fun r => match r with
+    | .succ p b o => if isMixed w o then Report.fail else Report.succ p b o
+    | .fail => Report.fail)
 
 /-- `_collect_from_paths`. -/
 def pathReports (env : Env) (enum : List String → List String) : World × List Report :=
-  (notIgnoredPaths env.fs env.cfg.ignored env.cfg.paths).foldl (collectStep env enum) (env.init, [])
+  let r := (notIgnoredPaths env.fs env.cfg.ignored env.cfg.paths).foldl (collectStep env enum) (env.init, [])
+  (r.1, failMixed r.1 r.2)
 
 /-- the reports of `pytask_collect` before the duplicate-signature pass: paths, programmatic tasks, left-overs. -/
 def rawReports (env : Env) (enum : List String → List String) : World × List Report :=
